@@ -964,15 +964,19 @@ func (s *Store) discoveryChainSourcesTxn(tx ReadTxn, ws memdb.WatchSet, dc strin
 			return 0, nil, fmt.Errorf("failed to fetch discovery chain for %q: %v", sn.String(), err)
 		}
 
+		// Every chain that was looked at decides the result, including the
+		// ones that (no longer) target the destination: leaving their index
+		// out makes the reported index fall back when the last source goes.
+		if idx > maxIdx {
+			maxIdx = idx
+		}
+
 		for _, t := range chain.Targets {
 			em := acl.NewEnterpriseMetaWithPartition(sn.PartitionOrDefault(), t.Namespace)
 			candidate := structs.NewServiceName(t.Service, &em)
 
 			if !candidate.Matches(destination) {
 				continue
-			}
-			if idx > maxIdx {
-				maxIdx = idx
 			}
 			if !seenSource[sn] {
 				seenSource[sn] = true
